@@ -1,8 +1,55 @@
 (** C07 — Iterating and argument-routing modifiers equal their definitions.
     Property theorems only; every proof is [exact lemma]. *)
 From Coq Require Import List ZArith NArith Bool.
-From UV Require Import Model.Prims Model.Kernels Proofs.Kernels.
+From UV Require Import Model.Node Model.Sig Model.Exec Proofs.Routing.
+From UV Require Import Model.Prims Model.Kernels Proofs.KernelsBase Proofs.KernelsAtoms Proofs.Kernels.
 Import ListNotations.
+
+(** * the depth kernels selected by f_mon_fast_fn equal the definition *)
+
+(** identity, reverse, first, last, deshape, fix at depth d = d nested rows of the primitive, on
+    every well-formed array of any rank whose mapped axes are non-empty *)
+Theorem C07_kernel_eq_generic : forall a f, proved_atom a = Some f ->
+  forall d x, wf x -> lead_pos d (ash x) -> run_katom a d x = rows_iter d (sem f) x.
+Proof. exact kernel_eq_generic. Qed.
+(** any kernel that treats the flat data as independent blocks at depth d (the form of every
+    *_depth function) is d nested rows of its depth-0 self *)
+Theorem C07_blockwise_generic : forall (b : bk) d x, wf x -> lead_pos d (ash x) ->
+  run_bk b d x = rows_iter d (run_bk b 0) x.
+Proof. exact run_bk_rows_iter. Qed.
+(** over an empty mapped axis the shape-only kernels succeed and keep the mapped lengths *)
+Theorem C07_kernel_empty_lead : forall a, In a [KId; KRev; KDeshape; KFix] ->
+  forall d x i, wf x -> d <= length (ash x) -> first_zero (firstn d (ash x)) = Some i ->
+  exists y, run_katom a d x = Ok y /\ firstn (S i) (ash y) = firstn (S i) (ash x).
+Proof. exact kernel_empty_lead. Qed.
+(** box: wherever box_depth does not meet empty rows at depth >= 2 *)
+Theorem C07_box_kernel_eq : forall d x, wf x -> lead_pos d (ash x) ->
+  (prodn (skipn (dmin d x) (ash x)) <> 0 \/ dmin d x <= 1) ->
+  run_katom KBox d x = rows_iter d (sem FBox) x.
+Proof. exact box_kernel_eq. Qed.
+Theorem C07_box_kernel_eq_fixed : forall d x, wf x -> lead_pos d (ash x) ->
+  Ok (k_box_fixed d x) = rows_iter d (sem FBox) x.
+Proof. exact box_kernel_eq_fixed. Qed.
+(** rows increments the kernel depth; end to end: the interpreter's rows^k F = the definition *)
+Theorem C07_rows_increments_depth : forall k f ks d, fast_fn f = Some (ks, d) ->
+  fast_fn (rowsk k f) = Some (ks, k + d).
+Proof. exact rows_increments_depth. Qed.
+Theorem C07_exec_rows_atom_eq : forall a f, proved_atom a = Some f -> atom_kernel false f = Some a ->
+  forall k x, wf x -> lead_pos (S k) (ash x) ->
+  exec_mfn (rowsk (S k) f) x = sem (rowsk (S k) f) x.
+Proof. exact exec_rows_atom_eq. Qed.
+(** rows distributes over composition when the argument has the mapped axis *)
+Theorem C07_rows_rows_compose : forall (F G : arr -> res arr) x n s ys y0,
+  ash x = n :: s -> mapM F (rows x) = Ok (y0 :: ys) ->
+  Forall (fun r => wf r /\ ash r = ash y0 /\ aty r = aty y0) (y0 :: ys) ->
+  rows_def (fun r => y <- F r ;; G y) x = (y <- rows_def F x ;; rows_def G y).
+Proof. exact rows_rows_compose. Qed.
+(** the repaired min/max shortcut is never taken under rows *)
+Theorem C07_reduce_minmax_shortcut_repaired : forall su o d x,
+  k_reduce_minmax false su o (S d) x = k_reduce_num o (S d) x.
+Proof. exact reduce_minmax_shortcut_repaired. Qed.
+
+(** * where the faithful kernels are NOT the definition (each witness confirmed on the implementation) *)
 
 Theorem C07_reduce_minmax_shortcut_refuted_pre :
   exists x, wf x /\ ash x = [3%nat] /\
@@ -11,6 +58,124 @@ Proof. exact reduce_minmax_shortcut_refuted_pre. Qed.
 Theorem C07_inventory_pervasive_refuted :
   exists f x, wf x /\ ash x = [2%nat] /\ exec_inventory f x <> inventory_def (sem f) x.
 Proof. exact inventory_pervasive_refuted. Qed.
+Theorem C07_below_rank_refuted :
+  exists x, wf x /\ ash x = [2%nat] /\
+    exec_mfn (rowsk 2 (FReduce PMax)) x <> sem (rowsk 2 (FReduce PMax)) x.
+Proof. exact reduce_below_rank_refuted. Qed.
+Theorem C07_compose_below_rank_refuted :
+  exists f x, wf x /\ ash x = [2%nat] /\ fast_fn f <> None /\
+    exec_mfn (rowsk 2 f) x <> sem (rowsk 2 f) x.
+Proof. exact compose_below_rank_refuted. Qed.
+Theorem C07_first_depth_empty_refuted :
+  exists x, wf x /\ exec_mfn (rowsk 1 FFirst) x = Err /\
+    exists y, sem (rowsk 1 FFirst) x = Ok y /\ ash y = [0%nat].
+Proof. exact first_depth_empty_refuted. Qed.
+Theorem C07_box_depth_empty_rows_refuted :
+  exists x y, wf x /\ first_zero (firstn 2 (ash x)) = None /\
+    exec_mfn (rowsk 2 FBox) x = Ok y /\ ~ wf y /\ sem (rowsk 2 FBox) x <> Ok y.
+Proof. exact box_depth_empty_rows_refuted. Qed.
 
+(** * argument routing: the final stack is the documented rearrangement *)
+Section R.
+  Variable pknown : N -> list sval -> bool.
+  Variable psem : N -> option (list sval) -> list sval -> option (list sval).
+  Variable arrsem : bool -> list sval -> option sval.
+  Variable unpacksem : nat -> bool -> sval -> option (list sval).
+  Variable fmtsem : list sval -> sval.
+  Variable asm : list node.
+  Notation exec := (Exec.exec pknown psem arrsem unpacksem fmtsem asm).
+  Notation runs := (runs pknown psem arrsem unpacksem fmtsem asm).
+
+  Theorem C07_fork_spec : forall fuel sf f sg g s args rest s2 og s3 of_,
+    stk s = args ++ rest -> length args = Nat.max (sa sf) (sa sg) ->
+    runs fuel g s (firstn (sa sg) args ++ rest) s2 (og ++ rest) ->
+    runs fuel f s2 (firstn (sa sf) args ++ og ++ rest) s3 (of_ ++ og ++ rest) ->
+    ends (exec (S fuel) (Mod MFork [(sf, f); (sg, g)]) s) (of_ ++ og ++ rest).
+  Proof. exact (fork_spec pknown psem arrsem unpacksem fmtsem asm). Qed.
+  Theorem C07_bracket_spec : forall fuel sf f sg g s a1 a2 rest s2 o2 s3 o1,
+    stk s = a1 ++ a2 ++ rest -> length a1 = sa sf ->
+    runs fuel g s (a2 ++ rest) s2 (o2 ++ rest) ->
+    runs fuel f s2 (a1 ++ o2 ++ rest) s3 (o1 ++ o2 ++ rest) ->
+    ends (exec (S fuel) (Mod MBracket [(sf, f); (sg, g)]) s) (o1 ++ o2 ++ rest).
+  Proof. exact (bracket_spec pknown psem arrsem unpacksem fmtsem asm). Qed.
+  Theorem C07_both_spec : forall fuel sg f s a1 a2 rest s2 o2 s3 o1,
+    stk s = a1 ++ a2 ++ rest -> length a1 = sa sg ->
+    runs fuel f s (a2 ++ rest) s2 (o2 ++ rest) ->
+    runs fuel f s2 (a1 ++ o2 ++ rest) s3 (o1 ++ o2 ++ rest) ->
+    ends (exec (S fuel) (Mod MBoth [(sg, f)]) s) (o1 ++ o2 ++ rest).
+  Proof. exact (both_spec pknown psem arrsem unpacksem fmtsem asm). Qed.
+  Theorem C07_dip_spec : forall fuel sg f s x rest s2 outs rest',
+    stk s = x :: rest -> runs fuel f s rest s2 (outs ++ rest') ->
+    ends (exec (S fuel) (Mod MDip [(sg, f)]) s) (x :: outs ++ rest').
+  Proof. exact (dip_spec pknown psem arrsem unpacksem fmtsem asm). Qed.
+  Theorem C07_gap_spec : forall fuel sg f s x rest s2 st2,
+    stk s = x :: rest -> runs fuel f s rest s2 st2 ->
+    ends (exec (S fuel) (Mod MGap [(sg, f)]) s) st2.
+  Proof. exact (gap_spec pknown psem arrsem unpacksem fmtsem asm). Qed.
+  Theorem C07_on_spec : forall fuel sg f s x rest s2 outs rest',
+    stk s = x :: rest -> runs fuel f s (x :: rest) s2 (outs ++ rest') ->
+    ends (exec (S fuel) (Mod MOn [(sg, f)]) s) (x :: outs ++ rest').
+  Proof. exact (on_spec pknown psem arrsem unpacksem fmtsem asm). Qed.
+  Theorem C07_by_spec : forall fuel sg f s args last rest s2 outs,
+    stk s = args ++ last :: rest -> S (length args) = Nat.max (sa sg) 1 ->
+    runs fuel f s (args ++ last :: last :: rest) s2 (outs ++ last :: rest) ->
+    ends (exec (S fuel) (Mod MBy [(sg, f)]) s) (outs ++ last :: rest).
+  Proof. exact (by_spec pknown psem arrsem unpacksem fmtsem asm). Qed.
+  Theorem C07_with_spec : forall fuel sg f s args last rest s2 outs rest',
+    stk s = args ++ last :: rest -> S (length args) = sa sg ->
+    runs fuel f s (args ++ last :: rest) s2 (outs ++ rest') ->
+    ends (exec (S fuel) (Mod MWith [(sg, f)]) s) (last :: outs ++ rest').
+  Proof. exact (with_spec pknown psem arrsem unpacksem fmtsem asm). Qed.
+  Theorem C07_off_spec : forall fuel sg f s x rest s2 outs rest',
+    stk s = x :: rest -> length outs = so sg -> runs fuel f s (x :: rest) s2 (outs ++ rest') ->
+    ends (exec (S fuel) (Mod MOff [(sg, f)]) s) (outs ++ x :: rest').
+  Proof. exact (off_spec pknown psem arrsem unpacksem fmtsem asm). Qed.
+  Theorem C07_above_spec : forall fuel sg f s args rest s2 outs rest',
+    stk s = args ++ rest -> length args = sa sg -> runs fuel f s (args ++ rest) s2 (outs ++ rest') ->
+    ends (exec (S fuel) (Mod MAbove [(sg, f)]) s) (args ++ outs ++ rest').
+  Proof. exact (above_spec pknown psem arrsem unpacksem fmtsem asm). Qed.
+  Theorem C07_below_spec : forall fuel sg f s args rest s2 outs,
+    stk s = args ++ rest -> length args = sa sg -> runs fuel f s (args ++ args ++ rest) s2 (outs ++ args ++ rest) ->
+    ends (exec (S fuel) (Mod MBelow [(sg, f)]) s) (outs ++ args ++ rest).
+  Proof. exact (below_spec pknown psem arrsem unpacksem fmtsem asm). Qed.
+End R.
+
+(** non-vacuity: premises are met on non-trivial instances, and the two sides are not trivially equal *)
+Example C07_nonvacuous :
+  let x := Arr TNum [2; 1; 3]%nat [ENum 1; ENum 2; ENum 3; ENum 4; ENum 5; ENum 6] in
+  wf x /\ lead_pos 2 (ash x) /\ proved_atom KRev = Some FRev /\
+  run_katom KRev 2 x = Ok (Arr TNum [2; 1; 3]%nat [ENum 3; ENum 2; ENum 1; ENum 6; ENum 5; ENum 4]) /\
+  exec_mfn (rowsk 2 FFirst) x = Ok (Arr TNum [2; 1]%nat [ENum 1; ENum 4]) /\
+  sem (rowsk 2 FFirst) x = Ok (Arr TNum [2; 1]%nat [ENum 1; ENum 4]) /\
+  exec zknown zsem no_arr no_unpack no_fmt [] 5 (Mod MFork [(sig2 2 1, Prim 5 2 1); (sig2 1 1, Prim 8 1 1)])
+       (RT [SInt 3; SInt 5; SInt 9] [] [] [] 0) = Exec.Ok (RT [SInt 8; SInt (-3); SInt 9] [] [] [] 0).
+Proof.
+  cbv zeta. split; [reflexivity|]. split; [repeat constructor|]. repeat split; vm_compute; reflexivity.
+Qed.
+
+Print Assumptions C07_kernel_eq_generic.
+Print Assumptions C07_blockwise_generic.
+Print Assumptions C07_kernel_empty_lead.
+Print Assumptions C07_box_kernel_eq.
+Print Assumptions C07_box_kernel_eq_fixed.
+Print Assumptions C07_rows_increments_depth.
+Print Assumptions C07_exec_rows_atom_eq.
+Print Assumptions C07_rows_rows_compose.
+Print Assumptions C07_reduce_minmax_shortcut_repaired.
 Print Assumptions C07_reduce_minmax_shortcut_refuted_pre.
 Print Assumptions C07_inventory_pervasive_refuted.
+Print Assumptions C07_below_rank_refuted.
+Print Assumptions C07_compose_below_rank_refuted.
+Print Assumptions C07_first_depth_empty_refuted.
+Print Assumptions C07_box_depth_empty_rows_refuted.
+Print Assumptions C07_fork_spec.
+Print Assumptions C07_bracket_spec.
+Print Assumptions C07_both_spec.
+Print Assumptions C07_dip_spec.
+Print Assumptions C07_gap_spec.
+Print Assumptions C07_on_spec.
+Print Assumptions C07_by_spec.
+Print Assumptions C07_with_spec.
+Print Assumptions C07_off_spec.
+Print Assumptions C07_above_spec.
+Print Assumptions C07_below_spec.
